@@ -836,8 +836,79 @@ def job_quadrature(cfg):
     return res
 
 
+def job_follower(cfg):
+    """Follower pressure on the boundary facets of a 3-D mesh.  Slot convention of the operator (its code and the `slot K` / `slot F` wording of
+    its docstring): the second returned array is the follower FORCE F(u) that goes to the right-hand side, the first one the tangent of the
+    residual R = R_internal - F, i.e. K_e = - dF_e/du.  Decided entrywise for all nodal displacements and pressures (F_e is quadratic in u:
+    exact polynomial identities)."""
+    from EasyFEA.FEM import MatrixType
+    from EasyFEA.FEM.Operators import NonLinear
+
+    res = JobResult(cfg)
+    c = new_context()
+    facade.install()
+    facet = cfg["facet"]
+    key = f"follower pressure on {facet} facets"
+    res.functions |= {"NonLinear.FollowingPressure", "NonLinear.__skew"}
+    if facet == "QUAD4":
+        X = np.array([[0, 0, 0], [1, 0, 0], [1.1, 1, 0], [0, 0.9, 0], [0, 0, 1], [1, 0.1, 1.2], [1.2, 1.1, 0.9], [-0.1, 1, 1]], dtype=float)
+        mesh = simlib.mesh_from_arrays([("HEXA8", [[0, 1, 2, 3, 4, 5, 6, 7]]), ("QUAD4", [[4, 5, 6, 7], [0, 1, 5, 4]])], X)
+        from EasyFEA.FEM._utils import ElemType
+        g = mesh.dict_groupElem[ElemType.QUAD4]
+    elif facet == "TRI6":
+        X = np.array([[0, 0, 0], [1, 0, 0], [0, 1, 0], [0, 0, 1], [0.5, 0.05, 0], [0.55, 0.5, 0.05], [0, 0.5, 0.05], [0, 0.05, 0.5], [0.5, 0, 0.55], [0.05, 0.5, 0.5]], dtype=float)
+        mesh = simlib.mesh_from_arrays([("TETRA10", [[0, 1, 2, 3, 4, 5, 6, 7, 8, 9]]), ("TRI6", [[0, 1, 2, 4, 5, 6]])], X)
+        from EasyFEA.FEM._utils import ElemType
+        g = mesh.dict_groupElem[ElemType.TRI6]
+    else:
+        X = np.array([[0, 0, 0], [1, 0, 0], [0.25, 1, 0], [0.25, 0.5, 1]], dtype=float)
+        mesh = simlib.mesh_from_arrays([("TETRA4", [[0, 1, 2, 3]]), ("TRI3", [[0, 1, 2], [1, 2, 3]])], X)
+        from EasyFEA.FEM._utils import ElemType
+        g = mesh.dict_groupElem[ElemType.TRI3]
+    u, syms = sym_displacement(c, mesh, 3, list(range(mesh.Nn)), name="u")
+    pr = c.var("pressure", -2, 2, shadow=Fraction(3, 4))
+    res.symbols = len(syms) + 1
+    mark = c.mark()
+    with facade.symbolic():
+        K_e, R_e = NonLinear.FollowingPressure(g, u, pr, matrixType=MatrixType.mass)
+    pcs = c.pc_since(mark)
+    res.paths, res.path_conditions = 1, len(pcs)
+    K_e, R_e = np.asarray(K_e, dtype=object), np.asarray(R_e, dtype=object)
+    conn = np.asarray(g.connect)
+
+    def replay(env):
+        full = fenv(c, env)
+        uf = np.array([float(as_sym(x).eval(full)) for x in u])
+        pf = float(as_sym(pr).eval(full))
+        Kf, Rf = NonLinear.FollowingPressure(g, uf, pf, matrixType=MatrixType.mass)
+        worst = 0.0
+        h = 1e-6
+        for e in range(g.Ne):
+            for j, (nj, cj) in enumerate((n_, c_) for n_ in conn[e] for c_ in range(3)):
+                up, um = uf.copy(), uf.copy()
+                up[nj * 3 + cj] += h
+                um[nj * 3 + cj] -= h
+                d = (np.asarray(NonLinear.FollowingPressure(g, up, pf, matrixType=MatrixType.mass)[1])[e] - np.asarray(NonLinear.FollowingPressure(g, um, pf, matrixType=MatrixType.mass)[1])[e]) / (2 * h)
+                worst = max(worst, float(np.abs(np.asarray(Kf)[e][:, j] + d).max()))
+        return worst > 1e-6, {"pressure": pf, "max_abs_difference_K_e_vs_minus_finite_differences_of_the_follower_force": worst}
+
+    pairs = []
+    for e in range(g.Ne):
+        cols = [(int(n_), c_) for n_ in conn[e] for c_ in range(3)]
+        for i in range(len(cols)):
+            Ri = as_sym(R_e[e, i])
+            for j, (nj, cj) in enumerate(cols):
+                pairs.append((-Ri.diff(u[nj * 3 + cj]), as_sym(K_e[e, i, j])))
+    close_all(res, f"{key}: K_e = - dF_e/du entrywise", pairs, pcs, replay, f"follower pressure tangent ({facet})",
+              sample={"obligation": f"{key}: for all nodal displacements in [-1/8, 1/8] and pressures in [-2, 2]: K_e[i, j] == - d F_e[i] / d u_j (polynomial identity, symbolic differentiation of the returned follower force)", "entries": len(pairs)})
+    tw = prove_abs_le(pairs[0][0] - pairs[0][1] * 2 - 1, TOL, pcs, "twin")
+    res.twin(f"{key} twin", tw.status == "cex")
+    res.stubs |= facade.USED_STUBS
+    return res
+
+
 def job(cfg):
-    return {"law": job_law, "operator": job_operator, "law_invariants": job_law_invariants, "tables": job_tables, "quadrature": job_quadrature}[cfg["kind"]](cfg)
+    return {"law": job_law, "operator": job_operator, "law_invariants": job_law_invariants, "tables": job_tables, "quadrature": job_quadrature, "follower": job_follower}[cfg["kind"]](cfg)
 
 
 def main():
@@ -869,6 +940,8 @@ def main():
     if tier == "thorough":
         # cubic energy: the stress is quadratic along the strain path, Simpson's rule (3 points) is the first exact one
         configs.append({"kind": "quadrature", "law": "Polynomial", "dim": 2, "nPoints": 3})
+    for facet in (["QUAD4", "TRI3"] if tier == "quick" else ["QUAD4", "TRI3", "TRI6"]):
+        configs.append({"kind": "follower", "facet": facet})
     # other time schemes: coefK = 1 (newmark), 3/4 (hht with alpha = 1/4)
     configs.append({"kind": "quadrature", "law": "SaintVenantKirchhoff", "dim": 2, "nPoints": 3, "coefK": "1"})
     configs.append({"kind": "quadrature", "law": "SaintVenantKirchhoff", "dim": 2, "nPoints": 2, "coefK": "3/4"})
